@@ -71,7 +71,7 @@ class Canonicalizer:
     def _sorted_key(self, variable: Variable) -> tuple[int, tuple[str, str], str]:
         # variables that share a name (value marks, counterfactual worlds) tie on the level: break the tie
         # so that the result does not depend on the order in which they were given
-        return self.ordering_level[variable.name], _variable_sort_key(variable), variable.to_text()
+        return self.ordering_level[variable.name], _variable_sort_key(variable), variable.to_y0()
 
     def canonicalize(self, expression: Expression) -> Expression:
         """Canonicalize an expression.
